@@ -466,6 +466,15 @@ mod f22_sealed_item_shortfall {
 mod f23_zst_vec_validation_is_bounded {
     use super::common::*;
     #[test]
+    fn array_of_zero_sized_elements_is_validated_in_bounded_time() {
+        // [(); 1 << 40] is a legal zero-byte type (finding 30: the array validator looped N times)
+        let t = std::time::Instant::now();
+        assert!(<[(); 1 << 40]>::validate(&[]).is_ok());
+        let mem = aligned(&[1], 1);
+        assert!(FlatVec::<[(); 1 << 40], u8>::validate(&mem).is_ok());
+        assert!(t.elapsed().as_millis() < 200, "took {:?}", t.elapsed());
+    }
+    #[test]
     fn validation_work_is_bounded_by_the_input() {
         let mem = aligned(&[0xff, 0xff, 0xff, 0x03], 4); // len = 2^26 - 1 zero-sized elements in 4 bytes of input
         let t = std::time::Instant::now();
@@ -584,6 +593,37 @@ mod f29_flex_unaligned_extent {
         let v = FlexVec::<u32, u8>::from_bytes(&mem).unwrap();
         assert_eq!(v.len(), 1);
         assert!(v.size() <= mem.len());
+    }
+}
+
+/// Finding 31 (C03, C15): flex::FromIterator converted the extent of EVERY item to the offset type, also of the last one, which stays
+/// open and needs no stored extent: content that `default_in_place` + `push` builds fine was refused for every buffer size.
+#[cfg(test)]
+mod f31_flex_fromiterator_last_item {
+    use super::common::*;
+    use flatty::flex::FromIterator;
+    use flatty::string::FromStr;
+    #[test]
+    fn a_large_last_item_is_accepted_like_push_does() {
+        type V = FlexVec<FlatString<u16>, u8>;
+        let big = "x".repeat(300);
+        let mut a = AlignedBytes::new(1024, 2);
+        let mut b = AlignedBytes::new(1024, 2);
+        a.iter_mut().for_each(|x| *x = 0);
+        b.iter_mut().for_each(|x| *x = 0);
+        let v = V::default_in_place(&mut a).unwrap();
+        v.push(FromStr("header")).unwrap();
+        v.push(FromStr(big.as_str())).unwrap();
+        let w = V::new_in_place(&mut b, FromIterator::new([FromStr("header"), FromStr(big.as_str())])).expect("refused content that fits");
+        assert_eq!(w.len(), 2);
+        let (sv, sw) = (v.size(), w.size());
+        assert_eq!(sv, sw);
+        assert_eq!(&a[..sv], &b[..sw]);
+        // an item that is NOT the last one still needs a representable extent
+        let mut c = AlignedBytes::new(1024, 2);
+        c.iter_mut().for_each(|x| *x = 0);
+        assert!(V::new_in_place(&mut c, FromIterator::new([FromStr(big.as_str()), FromStr("tail")])).is_err());
+        assert!(V::validate(&c).is_ok());
     }
 }
 
